@@ -478,7 +478,7 @@ func r19DocNum(c *RuleCtx) {
 	indexers := map[string]bool{"getDocStoredMetaAndCompressed": true, "getDocStoredOffsets": true}
 	n := 0
 	for _, fn := range p.ZapFuncs {
-		if indexers[fn.Name()] || fn.Name() == "copyStoredDocs" {
+		if indexers[fn.Name()] || namedFn(fn, "SegmentBase.copyStoredDocs") {
 			continue // copyStoredDocs passes 0 / numDocs-1 under its own numDocs > 0 guard
 		}
 		for _, cs := range callSites(fn) {
@@ -849,7 +849,7 @@ func ruleR4() *Rule {
 								if f == clone && x.Common().Args[0] == v {
 									continue
 								}
-								if f != nil && f.Name() == "size" && x.Common().Args[0] == v {
+								if f != nil && namedFn(f, "docValueReader.size") && x.Common().Args[0] == v {
 									continue
 								}
 								okc = false
